@@ -87,13 +87,31 @@ func protect(f func() string) (res string) {
 func opBytes(t *tokens) string {
 	var mon aliasMonitor
 
+	// The initial blocks are sub-slices of ONE buffer, in input order, each with
+	// the rest of the buffer as spare capacity: the way a loader that maps a
+	// whole file hands them over. Every block's bytes are watched.
 	k := t.int()
+	begins := make([]model.Addr, k)
+	parts := make([][]byte, k)
+	total := 0
+	for i := 0; i < k; i++ {
+		begins[i] = model.Addr(t.uint())
+		parts[i] = t.hex()
+		total += len(parts[i])
+	}
+	shared := make([]byte, 0, total)
 	blocks := make([]memory.ByteBlock, 0, k)
 	for i := 0; i < k; i++ {
-		begin := model.Addr(t.uint())
-		bs := t.hex()
-		mon.watch(bs)
-		blocks = append(blocks, vBlock{begin: begin, bs: bs})
+		off := len(shared)
+		shared = append(shared, parts[i]...)
+		bs := shared[off:len(shared)]
+		if len(parts[i]) == 0 {
+			bs = parts[i] // keep the nil / empty distinction of the reader
+		}
+		blocks = append(blocks, vBlock{begin: begins[i], bs: bs})
+	}
+	for _, b := range blocks {
+		mon.watch(b.Bytes())
 	}
 
 	// Parse the whole history first so that a malformed line never executes
